@@ -385,6 +385,8 @@ ELEMENT_INPUTS = [
     b"1", b"+1", b"-1", b"1.5", b".5", b"1.", b"-.5", b"+0.0", b"1e5", b"1E5", b"1e+5", b"1E-5", b"1.5e10", b".5E2", b"1e40000", b"1e-40000", b"0e999999", b"-2.5E+99999",
     b"1" + b"0" * 40, b"0." + b"0" * 40 + b"1", b"1e", b"1e+", b".", b"-", b"+.", b"-e5", b"1,2", b"1 ,2", b"1;", b"1\n", b"1 2", b"1 V", b"1V", b"1 mV", b"1.5e3 KHZ", b"1 V/S", b"1 V.S-1",
     b"1 ABCDEFGHIJKL", b"1 ABCDEFGHIJKLM", b"1V 2", b"1 V;", b"1 V ,2", b"1.5.5", b"1..", b"12345678901234567890123",
+    b"#H10", b"#h10", b"#Q10", b"#q10", b"#B10", b"#b10", b"#Z10", b"#Q1777777777777777777777", b"#Q2000000000000000000000", b"#Q3000000000000000000000", b"#Q7777777777777777777777",
+    b"#B" + b"1" * 64, b"#B" + b"1" * 65, b"#H+2A", b"#Q+17", b"#B-1",
     b"#HFF", b"#hff", b"#Q17", b"#q17", b"#B101", b"#b101", b"#H", b"#HG", b"#Q8", b"#B2", b"#X10", b"#HFF ,", b"#HFFG", b"#HFFFFFFFFFFFFFFFF", b"#H10000000000000000", b"#B1 ;", b"#Q7x",
 ]
 
@@ -454,6 +456,12 @@ def element_table(kinds, thorough=False):
             return fdai.mk_err(fdai.SymV("lexical-error", "lexical-error"))
 
         def m_parse_partial_radix(eng, st, fr, t, name, rname, args):
+            """lexical_core::parse_partial_with_options::<u64, FORMAT> as audited for the pinned lexical-core (probed on the
+            real crate when defects F15/F16 were triaged): an optional leading `+` is taken; digits are accumulated with
+            wrapping arithmetic and overflow is recognised from the digit count (more than the maximal count for the
+            radix) or, at exactly the maximal count, from the wrapped value being smaller than radix^(count-1) - which
+            misses 22-digit octal literals whose leading digit is 3, 5 or 7. A reader that relies on this parser for
+            the value is reported through the element tables (`#H+2A`, `#Q3000000000000000000000`, ...)."""
             b_ = M._bytes_of(eng, st, args[0])
             g = eng.concrete_gargs(st, t["callee"])
             if b_ is None or len(g) < 2 or not str(g[1]).isdigit():
@@ -461,15 +469,24 @@ def element_table(kinds, thorough=False):
             radix = (int(g[1]) >> 104) & 0xFF
             digits = "0123456789abcdefghijklmnopqrstuvwxyz"[:radix]
             txt = bytes(b_)
-            i = 0
+            i0 = 1 if txt[:1] == b"+" else 0
+            i = i0
             while i < len(txt) and chr(txt[i]).lower() in digits:
                 i += 1
-            v = int(txt[:i], radix) if i else 0
+            if i == i0:
+                return fdai.mk_ok(AggV("tuple", {0: K(0), 1: K(0)}))
+            sig = txt[i0:i].lstrip(b"0") or b"0"
+            v = int(sig, radix)
+            maxd = {16: 16, 8: 22, 2: 64}.get(radix)
+            wrapped = v % (2 ** 64)
+            over = maxd is not None and (len(sig) > maxd or (len(sig) == maxd and wrapped < radix ** (maxd - 1)))
+            if maxd is None:
+                over = v >= 2 ** 64
             adt, tab = CV.lexical_error_table(eng)
-            if v >= 2 ** 64 and tab:
+            if over and tab:
                 d = [k for k, n_ in tab.items() if n_ == "Overflow"]
                 return fdai.mk_err(EnumV(adt, "Overflow", d[0] if d else 0, {0: K(i)}))
-            return fdai.mk_ok(AggV("tuple", {0: K(v), 1: K(i)}))
+            return fdai.mk_ok(AggV("tuple", {0: K(wrapped), 1: K(i)}))
 
         models8 = dict(M.FOLD_MODELS)
         models8["lexical_core::parse"] = m_parse_int
